@@ -122,9 +122,12 @@ class SimTransport(asyncio.Transport):
         self.fail_writes = None  # exception instance raised by write()
         self.close_time = None
         self.writes_after_close = 0
+        self.on_write = None  # optional observer called for every write attempt
 
     # -- transport API used by the frame helpers
     def write(self, data) -> None:
+        if self.on_write is not None:
+            self.on_write(self, data)
         if self.fail_writes is not None:
             raise self.fail_writes
         if self.closing:
@@ -213,6 +216,7 @@ class SimLoop(base_events.BaseEventLoop):
         self._clock_resolution = 1e-9
         self.transports: list = []
         self.create_connection_error = None
+        self.on_new_transport = None
         self.getaddrinfo_impl = None
         self._active = False
 
@@ -255,6 +259,8 @@ class SimLoop(base_events.BaseEventLoop):
         protocol = protocol_factory()
         tr = SimTransport(self, protocol, sock)
         self.transports.append(tr)
+        if self.on_new_transport is not None:
+            self.on_new_transport(tr)
         waiter = self.create_future()
         self.call_soon(protocol.connection_made, tr)
         self.call_soon(futures._set_result_unless_cancelled, waiter, None)
